@@ -58,7 +58,11 @@ logging.disable(logging.CRITICAL)
 RUNS_WITHOUT_MODEL = True
 
 
-class Spin(Exception):
+class Spin(KeyboardInterrupt):
+    """raised by the watchdog; a KeyboardInterrupt subclass because asyncio tasks swallow everything else"""
+
+
+class StopPart(Exception):
     pass
 
 
@@ -196,7 +200,7 @@ def check_stream(ctx, M, loop, events, pkts, origin, fail_on=None):
             outs = [sr.event(ev) for ev in events]
     except Spin:
         ctx.violation('StreamFace.run', 'reader-loop-spins', 'run() does not return control to the event loop', case)
-        raise
+        raise StopPart()
     st = sr.state()
     sr.close()
     flat = [p for o in outs for p in o]
@@ -255,9 +259,14 @@ def check_stream(ctx, M, loop, events, pkts, origin, fail_on=None):
     return flat, st
 
 
-def part_stream(ctx):
+def part_stream(ctx, only=None):
     rng, M = ctx.rng, (ctx.call if ctx.model else None)
     loop = vtloop.new_loop()
+    if only is not None:
+        for events in only:
+            check_stream(ctx, M, loop, events, None, 'replay')
+        loop.close()
+        return
     from ndn.encoding import make_interest, make_data, InterestParam, MetaInfo
     real = [bytes(make_interest('/a/b', InterestParam(nonce=7, lifetime=4000))), bytes(make_data('/a', MetaInfo(), b'xy')),
             bytes(make_data('/long', MetaInfo(), bytes(300)))]
@@ -361,7 +370,7 @@ def part_stream(ctx):
 # =============================================================================================
 # UDP
 # =============================================================================================
-def part_udp(ctx):
+def part_udp(ctx, only=None):
     rng, M = ctx.rng, (ctx.call if ctx.model else None)
     from ndn.transport.udp_face import UdpFace
     loop = vtloop.new_loop()
@@ -436,6 +445,15 @@ def part_udp(ctx):
                 ctx.violation('UdpFace.datagram_received', 'wrong-type', 'callback typ is not the first number of the datagram', case)
         ctx.case(('u', data, via_socket), len(data) >= 4, case, 'udp.' + ('socket' if via_socket else 'direct'))
 
+    if only is not None:
+        for d in only:
+            one(d, False)
+            one(d, True)
+        face.shutdown()
+        loop.settle()
+        srv.close()
+        loop.close()
+        return
     fixed = [b'', b'\xfd', b'\xfd\x00', b'\xfe\x00\x00\x00', b'\xff' + bytes(7), b'\xff' + bytes(8), b'\x05\x00', b'\x06\x01a',
              b'\xfd\x00\x05\x00', b'\x64\x00', b'\xfc']
     for d in fixed:
@@ -770,7 +788,14 @@ def oracle_receive(ctx, front, loop, origin, typ, w, action, npend, nhand):
     site = f'appv{front.ver}._receive'
     pkt_name = [bytes(c) for c in action[1]] if action[0] in (2, 3, 4) else None
     pn = None
-    if pkt_name is not None and pkt_name and all(c[:1] not in (b'\x01', b'\x02') for c in pkt_name):
+    def usable(c):
+        # components the *encoder* accepts in a plain Interest/Data name (no invalid type 0, no digest components)
+        try:
+            t, _ = TG.read_num(c, 0)
+        except Exception:
+            return False
+        return t not in (0, 1, 2) and t <= 65535
+    if pkt_name and all(usable(c) for c in pkt_name):
         pn = pkt_name
     sc = Scenario(ctx, front, loop, npend, nhand, pn)
     app = sc.app
@@ -817,7 +842,10 @@ def oracle_receive(ctx, front, loop, origin, typ, w, action, npend, nhand):
             t.exception() if not t.cancelled() else None
             continue
         d = bytes(make_data(pname, MetaInfo(), b'after'))
-        loop.run_until_complete(app._receive(6, d))
+        if rng.random() < 0.5:
+            loop.run_until_complete(app._receive(6, d))
+        else:       # the forwarder may wrap it in an LpPacket (with headers the application ignores)
+            loop.run_until_complete(app._receive(0x64, G.tlv(0x64, G.tlv(0x62, b'\x07') + G.tlv(0x50, d))))
         loop.settle()
         ok = False
         if t.done() and not t.cancelled() and t.exception() is None:
@@ -830,7 +858,11 @@ def oracle_receive(ctx, front, loop, origin, typ, w, action, npend, nhand):
     for k in sc.hits:
         n0 = sc.hits[k]
         nm = list(k) + [b'\x08\x01z']
-        loop.run_until_complete(app._receive(5, bytes(make_interest(nm, InterestParam(nonce=99)))))
+        iw = bytes(make_interest(nm, InterestParam(nonce=99)))
+        if rng.random() < 0.5:
+            loop.run_until_complete(app._receive(5, iw))
+        else:
+            loop.run_until_complete(app._receive(0x64, G.tlv(0x64, G.tlv(0x62, b'\x01\x02') + G.tlv(0x50, iw))))
         loop.settle()
         if sc.hits[k] != n0 + 1:
             ctx.violation(site, 'handler-lost', f'handler {b"".join(k).hex()} no longer receives its Interests', case)
@@ -864,7 +896,7 @@ KNOWN_WITNESSES = [
 ]
 
 
-def part_receive(ctx):
+def part_receive(ctx, only=None):
     rng, M = ctx.rng, (ctx.call if ctx.model else None)
     from ndn.encoding import ndn_format_0_3 as F, ndnlp_v2 as LP
     from ndn import utils
@@ -908,6 +940,11 @@ def part_receive(ctx):
                 ctx.case(('r', f.ver, typ, w), len(w) >= 4, case if a[0] != 0 else None,
                          f'recv.v{f.ver}.{origin.split(".")[0]}.{["drop", "raise", "nack", "interest", "data"][a[0]]}')
 
+        if only is not None:
+            for typ, w in only:
+                for _ in range(8):          # several random states around the same packet
+                    one('replay', typ, w, True)
+            return
         for typ, w in KNOWN_WITNESSES:
             one('corpus', typ, w, True)
         pk = valid_packets(ctx)
@@ -944,6 +981,24 @@ def run(ctx):
     ctx.extra['source_reflection'] = {'run_catches_incomplete_read': info[0], 'run_catches_conn_reset': info[1],
                                       'run_spawns_task': info[2], 'udp_guarded': info[3], 'v1_frag_guard': info[4],
                                       'v2_frag_guard': info[5], 'v1_except_lp': info[6], 'v2_except_lp': info[7]}
-    part_stream(ctx)
+    try:
+        part_stream(ctx)
+    except StopPart:
+        ctx.notes.append('stream part aborted: the reader loop did not yield')
     part_udp(ctx)
     part_receive(ctx)
+
+
+def replay(ctx, data):
+    """single-case replay of a stored violation (./check C06 --replay file)"""
+    from harness.lib.core import unjson
+    case = unjson(data.get('case', {}))
+    if 'events' in case:
+        part_stream(ctx, only=[[tuple(e) for e in case['events']]])
+    elif 'datagram' in case:
+        part_udp(ctx, only=[case['datagram']])
+    elif 'wire' in case:
+        part_receive(ctx, only=[(case['typ'], case['wire'])])
+    else:
+        ctx.notes.append('replay: unknown case shape; full run repeated')
+        run(ctx)
